@@ -59,11 +59,14 @@ const (
 	// X = module X letters (4 memory shapes x 36 call sequences), P = probes on A and B
 	clX
 	clP
+	// W = host levels that raise the nested failure in another form (without recursion), Wr = the same with rec0
+	clW
+	clWr
 	nClasses
 	nBaseClasses = clVn
 )
 
-var className = [nClasses]string{"K", "r0", "N", "R", "Vn", "Vr", "Vp", "T", "O", "S", "F", "X", "P"}
+var className = [nClasses]string{"K", "r0", "N", "R", "Vn", "Vr", "Vp", "T", "O", "S", "F", "X", "P", "W", "Wr"}
 
 // Context variants: every step of a word is called with its own cancellable context ("cancel") or its own
 // context with a generous deadline ("deadline"), which the harness cancels after the step has returned; or
@@ -140,6 +143,15 @@ func init() {
 			classes[clX] = append(classes[clX], letter{sh, k})
 		}
 	}
+	for sh := ShHost1W1; sh <= ShHost2W3; sh++ {
+		for _, k := range shapeKinds(sh) {
+			if isRec(k) {
+				classes[clWr] = append(classes[clWr], letter{sh, k})
+			} else {
+				classes[clW] = append(classes[clW], letter{sh, k})
+			}
+		}
+	}
 	classes[clP] = []letter{{ShDirectA, KOk}, {ShDirectB, KOk}, {ShViaB, KOk}, {ShHost1P, KOk}}
 	classes[clF] = []letter{{ShLookup, KOk}, {ShCloseN, KOk}, {ShDirectA, KOk}, {ShDirectB, KOk}, {ShViaB, KOk}}
 }
@@ -159,7 +171,7 @@ func edgeFrame(l letter) bool { return l.Kind == KRec0 || l.Kind == KRec1024 }
 func (s section) recs() int {
 	n := 0
 	for _, c := range s.tuple {
-		if c == clR0 || c == clR || c == clVr {
+		if c == clR0 || c == clR || c == clVr || c == clWr {
 			n++
 		}
 	}
@@ -331,6 +343,15 @@ func sectionsFor(tier string) (secs []section, excludedByCap int64) {
 	}
 	for _, s := range xs {
 		s.count, s.batch = size(s.tuple), 1024
+		secs = append(secs, s)
+	}
+	// raise-style sections: a host level raises the failure of its nested call as an own error wrapping it, a
+	// joined error, a string, or an exit error it made itself
+	for _, t := range [][]int{{clW}, {clWr}, {clW, clP}, {clWr, clP}, {clK, clW}, {clW, clW}} {
+		s := section{tuple: t, count: size(t), batch: 1024}
+		if s.recs() > 0 {
+			s.batch = 24
+		}
 		secs = append(secs, s)
 	}
 	// heavy (recursion) sections first so that they are spread over all workers before the light tail
@@ -873,7 +894,7 @@ func main() {
 		Samples: samples.List(), Exhaustive: true, Outcomes: outcomes.Map(),
 		Bounds: map[string]any{"full_alphabet": len(fullAlphabet), "core_alphabet": coreNames, "shapes": NShapes, "kinds": NKinds,
 			"class_sizes": map[string]int{"K": len(classes[clK]), "r0": len(classes[clR0]), "N": len(classes[clN]), "R": len(classes[clR]),
-				"Vn": len(classes[clVn]), "Vr": len(classes[clVr]), "Vp": len(classes[clVp]), "T": len(classes[clT]), "O": len(classes[clO]), "S": len(classes[clS]), "F": len(classes[clF]), "X": len(classes[clX]), "P": len(classes[clP])},
+				"Vn": len(classes[clVn]), "Vr": len(classes[clVr]), "Vp": len(classes[clVp]), "T": len(classes[clT]), "O": len(classes[clO]), "S": len(classes[clS]), "F": len(classes[clF]), "X": len(classes[clX]), "P": len(classes[clP]), "W": len(classes[clW]), "Wr": len(classes[clWr])},
 			"context_variants": ctxModes,
 			"sections":         secs, "max_recursion_letters_per_word": maxRecPerWord, "engines": engines},
 		Extra: map[string]any{"words_excluded_by_recursion_cap": sp.excludedByCap, "words_run": words,
